@@ -215,6 +215,16 @@ Theorem unlabelled_file_weight_matrix_is_diagonal : forall ncol (lastcol : list 
 Proof. exact ScanProofs.unlabelled_entry. Qed.
 Print Assumptions unlabelled_file_weight_matrix_is_diagonal.
 
+
+(* the labelled / unlabelled decision of Sensors::load: labelled iff NO line's first token looks like a float (contains
+   exactly one '.'), whatever the position of the lines *)
+Theorem file_is_labelled_iff_no_line_starts_with_a_float : forall dots, file_is_labelled dots = true <-> forall b, In b dots -> b = false.
+Proof. exact ScanProofs.labelled_rule. Qed.
+Print Assumptions file_is_labelled_iff_no_line_starts_with_a_float.
+Theorem file_label_rule_ignores_line_order : forall dots dots', (forall b, In b dots <-> In b dots') -> file_is_labelled dots = file_is_labelled dots'.
+Proof. exact ScanProofs.labelled_rule_ignores_line_order. Qed.
+Print Assumptions file_label_rule_ignores_line_order.
+
 (* hypotheses are satisfiable / the models compute what one expects on small instances *)
 Example head2eeg_row_example :
   head2eeg_row Qops w12_g w12_p = Some [(0%nat, 11 # 16); (1%nat, 1 # 16); (2%nat, 1 # 4)]%Q.
